@@ -1,11 +1,66 @@
+"""C09 - aggregates served from stored statistics equal aggregates over the rows.
+
+In-package overlay harness hooks/engine/c09_test.go (TestVerifC09) on top of the shared engine base (vbase_test.go).
+Every history over the C09 alphabet up to the depth bound is executed on a fresh real shard; in every state reached,
+every aggregate statement of the query grammar is run through the real statement path of a single-process server
+(yacc parser -> query.Prepare -> executor.Select -> planner / push-down rules -> pipeline executor -> IndexScanTransform ->
+shard.CreateLogicalPlan -> cursors incl. the pre-aggregation shortcut -> aggregate transforms -> row sender) and compared
+with the same function applied by the harness to the rows of the plain read (cursor-level dump; the engine's own plain
+statement with the same filter for the field-filter variants).
+"""
+
 SPEC = dict(
     pkg="engine",
     hooks=["engine", "engine/immutable", "lib/fileops"],
     test="TestVerifC09",
     level="exploration",
     workers=16,
-    deadline={"quick": 420, "thorough": 2400},
-    rule="wip",
-    assumptions=[],
+    deadline={"quick": 420, "thorough": 2700},
+    rule="a case = (history, statement, call): every op sequence over the alphabet {write batches into the memtable, "
+         "'write + flush' macro ops, level compaction, full compaction, out-of-order merge, clean reopen} up to the depth bound "
+         "(no-op steps pruned) is run on a fresh shard; in every state every statement {count,sum,mean,min,max,first,last} x "
+         "{f float, i int, s string (count/first/last)} x time range {unbounded, every [t_a,t_b] over the 4 stored timestamps "
+         "(+ before/after in the full set)} x variant {plain, exact_statistic_query hint, field filter f>0, GROUP BY host, "
+         "GROUP BY time(2s|1s|3s), ORDER BY time DESC, all calls of a field in one statement, and combinations in the full set} "
+         "is executed through executor.Select and compared, group by group, with the function applied to the rows of the plain "
+         "read for the same range and filter; without hint / filter / bucket the comparison is made only for histories in which "
+         "no (series,timestamp) was written in two flush generations (counter excluded_cross_generation otherwise); "
+         "evaluations = compared (statement, call) pairs; distinct_nontrivial = distinct (physical layout shape incl. per-chunk "
+         "segment spans, chunk coverage pattern of the time range, call, field, variant, memtable present) among cases where at "
+         "least one stored chunk (series x file: the unit whose statistics the shortcut uses) is fully inside the range AND at "
+         "least one chunk is only partially covered or memtable rows are present",
+    assumptions=[
+        "one shard, TSSTORE engine, measurement m, series host=a|b, timestamps t1..t4 (1 s apart), fields f float, i int, s string; "
+        "values distinct per row, mixed signs, not monotone in time, exactly representable (sums order-free)",
+        "the statement path is executor.Select in single-process (local storage) mode as in app/ts-server; the cluster catalogue is "
+        "replaced by a one-node/one-partition/one-shard shard mapper (copy of the ts-store branch of "
+        "coordinator.ClusterShardMapping.CreateLogicalPlan) and a storage facade delegating to shard.CreateLogicalPlan",
+        "level-compaction group size 2 and 2-row segments (vSetupEngineKnobs) so that short histories reach multi-segment chunks, "
+        "compacted and merged files; the out-of-order merge itself runs with 8-row segments (its column writer panics on limits "
+        "that are not multiples of 8 - reported, not this property)",
+        "reference rows: cursor-level plain dump (cross-checked against the plain statement in every state and range); for the "
+        "field-filter variants the engine's own plain statement with the same filter, as the statement of the property says",
+        "first/last: values only; several series tying on the extreme timestamp make every tied value admissible; min/max: values only; "
+        "empty buckets / groups: null and count 0 mean 'no rows'; mean compared with relative tolerance 1e-12",
+        "flush generation of a key = the memtable it was written into; a generation ends when that memtable is observed on disk "
+        "(flush macro op or clean reopen)",
+    ],
 )
+
 CLAIMED = False
+MANIFEST = dict(
+    level="exploration",
+    engine="seqx",
+    technique="bounded exhaustive exploration of write/flush/compaction/merge/reopen histories on the real shard; in every reached layout "
+              "every statement of a finite aggregate-query grammar (7 calls x 3 field types x all time ranges over the stored timestamps "
+              "x hint / field filter / group by tag / group by time / descending / multi-call variants) is run through the real statement "
+              "path (parser, planner, push-down rules, pipeline executor, cursors with the statistics shortcut) and compared with the "
+              "function applied to the rows of the plain read (differential oracle)",
+    text="All histories up to the depth bound over write batches (dense, null-heavy, disjoint halves, interleaved odd/even, single series), "
+         "write+flush, level/full compaction, out-of-order merge and reopen are executed; in each state the aggregate statements are "
+         "compared with the aggregates recomputed from the plain read for every time range whose ends fall before, on, inside and after "
+         "the stored chunks and segments. Exhaustive within the stated bounds.",
+    note="Trusts: the harness' reference aggregation and its reading of result rows; the plain read (C02) as the definition of 'the rows'; "
+         "the shard-mapper stand-in. Not covered: more than one shard / node (final cross-node merge), more than 4 timestamps and 2 series, "
+         "boolean fields, sub-queries, fill() other than the default, limit/offset, downsampled shards, column store.",
+)
